@@ -204,6 +204,94 @@ def gen_random_baits(rng, inp):
 
 
 # ------------------------------------------------------------ implementation
+OUT_NAMES = ["asm.fa", "idFooBar1.2.fa", "xyz.1.agp", "a.b.3.tpf", "out.fasta", "OUT.FA", "o.12.agp2", "x.fa.gz",
+             "v.tpf", ".5.agp", "n.007.tpf", "asm.1.primary.fa", "q.TPF", "r.4.Agp", "noext", "t.3.fa~", "w..9.tpf",
+             "u.1.2.agp", "z.fa_old", "k.10.tpf_v2"]
+
+
+def choose_out_name(case):
+    if case.get("out_name"):
+        return case["out_name"]
+    h = sum(sc_len(sc) for sc in case["input"]["scaffolds"]) + 7 * len(case["pretext"]["scaffolds"])
+    return OUT_NAMES[h % len(OUT_NAMES)]
+
+
+class _Sink:
+    def __init__(self, binary):
+        self.parts = []
+        self.binary = binary
+
+    def write(self, x):
+        self.parts.append(x)
+        return len(x)
+
+    def __enter__(self):
+        return self
+
+    def __exit__(self, *a):
+        return False
+
+    def close(self):
+        pass
+
+    def flush(self):
+        pass
+
+    def text(self):
+        if self.binary:
+            return b"".join(self.parts).decode("latin-1")
+        return "".join(self.parts)
+
+
+def run_cli_plan(case, out_name):
+    """the case once more, through pretext_to_asm.cli itself: the two input files are replaced by the generated
+    assemblies and get_output_filehandle by a recorder, everything else is the real command"""
+    from pathlib import Path
+
+    from tola.assembly.scripts import pretext_to_asm as M
+
+    inp = A.assembly_to_obj(case["input"], "input")
+    ptx_json = case["pretext"]
+    hdr = list(ptx_json.get("header", []))
+    if ptx_json.get("bpt") is not None:
+        hdr.append(f"HiC MAP RESOLUTION: {ptx_json['bpt']} bp/texel")
+    ptx = A.assembly_to_obj({"header": hdr, "scaffolds": ptx_json["scaffolds"]}, "pretext")
+    feed = iter([(inp, None), (ptx, None)])
+    opens, sinks = [], {}
+
+    def rec(path, clobber, mode=""):
+        opens.append(path)
+        sinks[path.name] = _Sink("b" in mode)
+        return sinks[path.name]
+
+    out_dir = Path("/nonexistent-verif-dir/out")
+    saved = (M.parse_assembly_file, M.get_output_filehandle, M.page_messages)
+    M.parse_assembly_file = lambda path, default_format=None: next(feed)
+    M.get_output_filehandle = rec
+    M.page_messages = lambda itr: None
+    res = {"name": out_name, "fai": False}
+    try:
+        M.cli.callback(assembly_file=Path("in.tpf"), pretext_file=Path("pretext.agp"), output_file=out_dir / out_name,
+                       autosome_prefix=case.get("prefix", "SUPER_"), clobber=True, log_level="CRITICAL",
+                       write_log=False)
+        res["end"] = 0
+    except SystemExit:
+        res["end"] = 1
+    except Exception as e:
+        res["end"] = 2
+        res["end_err"] = type(e).__name__
+    finally:
+        M.parse_assembly_file, M.get_output_filehandle, M.page_messages = saved
+        root = logging.getLogger()
+        for h in list(root.handlers):
+            root.removeHandler(h)
+    res["opens"] = [p.name if p.parent == out_dir else str(p) for p in opens]
+    rep = [n for n in sinks if n.endswith(".chr_report.csv")]
+    res["report"] = sinks[rep[0]].text() if rep else None
+    res["csvs"] = [[n, sinks[n].text()] for n in res["opens"] if n.endswith(".chromosome.list.csv")]
+    return res
+
+
 def run_pipeline(case):
     inp = A.assembly_to_obj(case["input"], "input")
     ptx_json = case["pretext"]
@@ -220,13 +308,13 @@ def run_pipeline(case):
         return {"err": type(e).__name__, "msg": str(e)[:300]}
     st = build.assembly_stats
     extra = {}
+    extra["csv"] = [[k, st.chromosome_name_csv(a)] for k, a in out.items() if a.curated]
     if case.get("want_csv"):
         try:
-            extra["csv"] = [[k, st.chromosome_name_csv(a)] for k, a in out.items() if a.curated]
             extra["report"] = st.chromosomes_report_csv(out)
         except Exception as e:
             extra["csv_err"] = type(e).__name__
-    return {
+    res = {
         **extra,
         "asms": [
             {
@@ -245,6 +333,18 @@ def run_pipeline(case):
         "joins": st.joins,
         "per": [[k, [v["manual_breaks"], v["manual_joins"]]] for k, v in st.per_assembly_stats.items()],
     }
+    if case.get("plan", True) and sum(len(sc["rows"]) for sc in case["input"]["scaffolds"]) <= 400:
+        res["plan"] = run_cli_plan(case, choose_out_name(case))
+    # last, because it renames and re-flags the assembly objects in place
+    from tola.assembly.scripts.pretext_to_asm import name_assemblies
+
+    try:
+        named = name_assemblies(out, "rt", "2")
+        res["named"] = [[k, a.name, bool(a.curated), [s.name for s in a.scaffolds]] for k, a in named.items()]
+    except Exception as e:
+        res["named"] = None
+        res["named_err"] = type(e).__name__
+    return res
 
 
 # ------------------------------------------------------------ terms
@@ -264,8 +364,14 @@ def obs_term(o, names):
         return f"(mkOA {optlit(a['key'], names)} {blit(a['curated'])} {listlit(a['scaffolds'], sc)})"
 
     per = listlit(o["per"], lambda p: f"({names(p[0])}, ({zlit(p[1][0])}, {zlit(p[1][1])}))")
+    csv = listlit(o.get("csv", []), lambda p: f"({optlit(p[0], names)}, {optlit(p[1], names)})")
+    nm = optlit(o.get("named"), lambda l: listlit(
+        l, lambda n: f"({optlit(n[0], names)}, {names(n[1])}, {blit(n[2])}, {listlit(n[3], names)})"))
+    pl = optlit(o.get("plan"), lambda q: (
+        f"(mkOP {names(q['name'])} {blit(q['fai'])} {listlit(q['opens'], names)} {zlit(q['end'])} "
+        f"{optlit(q['report'], names)} " + listlit(q["csvs"], lambda c: f"({names(c[0])}, {names(c[1])})") + ")"))
     return (f"(Some (mkOO {listlit(o['asms'], asm)} {zlit(o['cuts'])} {zlit(o['breaks'])} "
-            f"{zlit(o['joins'])} {per}))")
+            f"{zlit(o['joins'])} {per} {csv} {nm} {pl}))")
 
 
 def case_term(case, obs):
